@@ -15,6 +15,21 @@ type PropSpec struct {
 }
 
 var properties = map[string]PropSpec{
+	"C07": {
+		Level: "other",
+		Explanation: "Traverse is implemented by four loop-free, mutually recursive functions; stepwise Index descent is a finite decision at each level, so agreement is decided per level and follows for every path length and tree by induction on the path. R-LEVEL: each level consumes exactly one path element - stack.traverse reads indices[0] only, every call inside the group passes the path on unchanged, and the single recursive call of traverse receives exactly indices[1:]; the path is used for nothing else. R-TRAV (tables, return paths enumerated exactly): traverse hands the handler the element stack.index returned for indices[0] and only when that lookup reported it found (non-nil), otherwise (nil,false) - also for an invalid receiver and an empty path; traverseStack returns (value,true) for a Stack/alias at the end of the path, the results of the descent into the Stack it converts to when elements remain, (nil,false) for a non-Stack; traverseStackInCondition returns (the Condition,true) at the end of the path, continues with the Condition's own Expression() when elements remain, (nil,false) for a non-Condition; the handler returns the Stack helper's results if it succeeded, else the Condition helper's, else (element,true) for a leaf at the end of the path, else (nil,false); Stack.Traverse forwards path and results and yields (nil,false) when uninitialised. Lookup = the same stack.index that Index uses (position translation proved in C01). R-NIL/R-REFL/R-BND/R-TA census restricted to everything reachable from Traverse: no tree or path can panic.",
+		NotDecided: "that the converters recognise exactly the Stack/Condition aliases (C12); equality with an independently written oracle on concrete trees (the induction argument is by reading the tables, not mechanised end to end).",
+		Run: func(c *Ctx) {
+			c.ruleInv()
+			if root := c.p.ByName["Stack.Traverse"]; root != nil {
+				c.ruleCensus(c.reach(root), map[string]bool{"R-NIL": true, "R-REFL": true, "R-TA": true, "R-BND": true})
+			}
+			c.ruleTraverse()
+			c.rep.floor("R-LEVEL", 4)
+			c.rep.floor("R-TRAV", 5)
+			c.rep.floor("R-NIL", 60)
+		},
+	},
 	"C01": {
 		Level: "other",
 		Explanation: "Each mutator is verified, once and for all inputs, against the list operation the property names, by a symbolic sequence algebra over the SSA: the header a mutator leaves behind is evaluated on every path as a concatenation of segments of the header it found (h0) and single values, and compared with the specification by linear entailment (Fourier-Motzkin). Pop: h0 without slot k and the value returned is h0[k], k = 1 under FIFO and len-1 otherwise; untouched header and (nil,false) when empty. Insert: h0 with x inserted exactly once at the clamped position (end when left >= Len, front when left <= 0, slot left+1 otherwise), everything else unchanged and in order, flag false on non-storing paths. Reset: h0[:1]. Replace: one element store of the argument at slot i+1, flag true exactly when stored. Swap: two element stores exchanging the values found at slots i+1 and j+1. Reverse: the loop exchanges mirror slots (a + b == len, by a conserved-sum loop invariant), starting at (1, len-1), one step per iteration, a <= b in the body and a >= b at every exit (no pair skipped, none exchanged twice). Remove: a filter loop over slots 1..len-1 in ascending order keeping every slot except the looked-up position, stored as [configuration] ++ kept, returning the element looked up. Push: both append loops visit x[0], x[1], ... one per iteration and append at the end of the current header (nil values included: no nil test). stack.index: i in [0,Len) addresses slot i+1, -k slot len-k, an oversize index the last slot (options on), and the value returned is the slot at the position returned. The nine exported wrappers hand their arguments to the worker unchanged and return its results. R-SLOT0: no header store or element store can lose, move or overwrite the configuration slot, so Len() == len(header)-1 always (R-CAPEQ Stack.Len). R-ELEMINDEP: Reset does not depend on element values. Since every mutator is a list operation on the header it finds, the content after any sequential history is that of the ordered list, by induction on the history.",
